@@ -206,7 +206,7 @@ pub fn worker_main<E: Engine>(e: &E, p: &Params, idx: usize, n: usize, dir: &str
 pub fn run_engine_procs<E: Engine>(e: &E, p: &Params) -> EngineReport {
     let t0 = Instant::now();
     let n = p.jobs.max(1);
-    let dir = format!("/verif/sim/target/tmp/w{}-{}", std::process::id(), e.name());
+    let dir = format!("{}/sim/target/tmp/w{}-{}", crate::verif_dir(), std::process::id(), e.name());
     let _ = std::fs::remove_dir_all(&dir);
     std::fs::create_dir_all(&dir).expect("create worker dir");
     let exe = std::env::current_exe().expect("current exe");
